@@ -260,12 +260,14 @@ def run(R):
     outs = [json.loads(x) for x in pxvlib.run_model("cg", lines)] if lines else []
     per_prog = {}
     order_bad, n_graphs_nontrivial = [], 0
+    distinct_nontrivial = set()
     for (name, gi), ln, mo in zip(owner, lines, outs):
         pp = per_prog.setdefault(name, {"own": True, "explained_by_capture": False, "graphs": 0})
         pp["graphs"] += 1
         req = json.loads(ln)
         if any(k in ("shared", "excl") for _, _, k in req["g"]["edges"]) and any(k == "move" for _, _, k in req["g"]["edges"]):
             n_graphs_nontrivial += 1
+            distinct_nontrivial.add(json.dumps([[n["copy"], n["cloneable"], n["tied"], n["direct"]] for n in req["g"]["nodes"]] + [req["g"]["edges"], req["sigma"]]))
         if mo.get("r") != "ok" or not (mo["isRun"] and mo["complete"] and mo["wf"]):
             order_bad.append({"program": name, "graph": gi, "model": mo, "request": req})
         for s in mo.get("sinks", []):
@@ -302,9 +304,9 @@ def run(R):
     R.coverage["accepted"] = len(accepted)
     R.coverage["rejected"] = len(rej)
     R.coverage["evaluations"] = len(lines)
-    R.coverage["distinct_nontrivial"] = len({l for l, (_, _), in zip(lines, owner)} & set(lines)) and n_graphs_nontrivial
+    R.coverage["distinct_nontrivial"] = len(distinct_nontrivial)
     R.coverage["rule"] = ("generated applications (free + in-class + corpus) through the real pavexc; one evaluation = one ordered call graph "
-                          "(handler / middleware / app-state closure) checked by the verified ownCheck; non-trivial = graph with at least one move edge and one borrow edge")
+                          "(handler / middleware / app-state closure) checked by the verified ownCheck; non-trivial = graph with at least one move edge and one borrow edge; distinct by (node flags, edges, order), labels ignored")
     R.coverage["samples"] = [{"program": n, "graph": gi, "request": json.loads(l)} for (n, gi), l in list(zip(owner, lines))[:2]]
     # L3c: the mirrored clone-insertion passes vs the graphs the real passes produced
     pc = passes_correspondence(list(obs.values()))
